@@ -50,5 +50,6 @@ props! {
     "C07" => c07,
     "C09" => c09,
     "C10" => c10,
+    "C11" => c11,
     "C13" => c13,
 }
